@@ -34,6 +34,8 @@ def enc_arg(a):
         return a
     if isinstance(a, float):
         return {'$float': repr(a)}
+    if isinstance(a, set):
+        return {'$set': [enc_arg(x) for x in a]}
     if isinstance(a, bytes):
         return {'$bytes': a.hex()}
     if isinstance(a, tuple):
